@@ -1,4 +1,6 @@
 """C01 — composition returns a sound abstraction of the exact composition (E1, DESIGN.md 4/C01)."""
+import itertools
+
 from .. import cgrid
 from .. import compsem as CS
 from .. import oracle as O
@@ -11,7 +13,7 @@ ORDERS = [[5, 4, 3, 2, 1], [1], [2], [3], [4], [5], []]
 RULE = (
     "E1 exhaustive over contract pairs of six wirings (independent, cascade, shared input, feedback, two internal "
     "variables, cascade + external input; contents from cgrid level 0: assumptions <=1 term, guarantees 1 term, "
-    "coefficients {-1,0,1}; plus a family of consumers whose 2-term guarantees bound their own connection input). Every pair is composed in both call orders x vars_to_keep in {none, first connection "
+    "coefficients {-1,0,1}; plus families of consumers whose 2-term guarantees bound their own connection input, of consumer assumptions over two or three internal variables coupled by the producer's rows, and a look-alike sequence). Every pair is composed in both call orders x vars_to_keep in {none, first connection "
     "variable, a non-connection output} x simplify in {True,False} x tactics_order default [1..5]; when the default run "
     "reports that some term needed a tactic, also reversed, each singleton [1]..[5] and [] (the order is only read when a "
     "term needs transformation, so otherwise these executions are identical). quick = complete core (first 80 pairs of "
@@ -34,6 +36,12 @@ def cases(tier, seed):
 
     for c in grids.dedupe(_selfbound()):
         yield c
+    for c in _coupled():
+        yield c
+    # the same consumer composed with two look-alike producers (gains equal to 4 significant digits), one after the other
+    for g1, g2 in ((7.0001, 7.0004), (7.0004, 7.0001)):
+        cons = {"i": ["o"], "o": ["p"], "a": [[{"o": 1}, 7]], "g": [[{"p": 1, "o": -2}, 0]]}
+        yield {"w": "casc", "fam": "seq", "seq": [[{"i": ["i"], "o": ["o"], "a": [], "g": [[{"o": 1, "i": -g}, 0]]}, cons] for g in (g1, g2)]}
     if tier == "thorough":
         # richer contents (2-term guarantees, coefficients up to 2): one complete 1/400 slice per wiring, rotated by the seed
         for w in ("casc", "share", "fb", "mix"):
@@ -54,11 +62,32 @@ def _selfbound():
                             yield {"w": w, "c1": {"i": i1, "o": o1, "a": a1, "g": g1}, "c2": {"i": i2, "o": o2, "a": a2, "g": g2}, "fam": "selfbound"}
 
 
+def _coupled():
+    """consumer terms over two or three internal variables that the producer's rows couple (Kaykobad / LP-active-row shapes)"""
+    K = (-2, 1, 2)
+    rows2 = [(a, b) for a in K for b in K]
+    for (a, b), (c, d) in itertools.combinations(rows2, 2):
+        for sg in (1, -1):
+            c1 = {"i": ["i"], "o": ["o", "q"], "a": [], "g": [[{"o": a * sg, "q": b * sg, "i": -1}, 0], [{"o": c * sg, "q": d * sg, "i": -1}, 1]]}
+            c2 = {"i": ["o", "q"], "o": ["p"], "a": [[{"o": sg, "q": sg}, 10]], "g": [[{"p": 1, "o": -1, "q": -1}, 0]]}
+            yield {"w": "casc2", "c1": c1, "c2": c2, "fam": "coupled"}
+    for off in itertools.product((0, 1), repeat=6):
+        if sum(off) not in (2, 3):
+            continue
+        rows = [{"o": 1, "q": off[0], "r": off[1]}, {"o": off[2], "q": 1, "r": off[3]}, {"o": off[4], "q": off[5], "r": 1}]
+        c1 = {"i": ["i"], "o": ["o", "q", "r"], "a": [], "g": [[{**{n: v for n, v in r.items() if v}, "i": -1}, 1] for r in rows]}
+        for co in ((1, 1, 1), (2, 3, 2)):
+            c2 = {"i": ["o", "q", "r"], "o": ["p"], "a": [[{"o": co[0], "q": co[1], "r": co[2]}, 10]], "g": [[{"p": 1, "o": -1}, 0]]}
+            yield {"w": "casc3", "c1": c1, "c2": c2, "fam": "coupled"}
+
+
 def describe(tier, seed):
     return {"slice": None if tier == "thorough" else "%d of %d" % (seed % NSLICES, NSLICES)}
 
 
 def keeps(w, first, second):
+    if w not in cgrid.WIRINGS:
+        return [[]]
     i1, o1, i2, o2 = cgrid.WIRINGS[w]
     conn = [v for v in o1 if v in i2] + [v for v in o2 if v in i1]
     non = [v for v in o1 + o2 if v not in conn]
@@ -106,9 +135,18 @@ def run_one(a, b, keep, simplify, order, sub, out, extra_base):
 
 
 def run_case(case):
+    if case.get("fam") == "seq":
+        out = []
+        for k, (a, b) in enumerate(case["seq"]):
+            for r in run_case({"w": case["w"], "c1": a, "c2": b}):
+                viol = r[3]
+                if viol is not None:
+                    viol = dict(viol, sub={"seq": k, "inner": viol["sub"]}, what="composition %d of a sequence of look-alike compositions: %s" % (k, viol["what"]))
+                out.append((r[0], r[1], r[2], viol) + tuple(r[4:]))
+        return out
     c1, c2 = contract(case["c1"]), contract(case["c2"])
     out = []
-    base = {"wiring:" + case["w"]: 1}
+    base = {"wiring:" + (case["w"] if case["w"] in cgrid.WIRINGS else "casc2"): 1}
     for first, second, tag in ((c1, c2, "12"), (c2, c1, "21")):
         for keep in keeps(case["w"], first, second):
             for simplify in (True, False):
